@@ -846,14 +846,26 @@ func (g *gen) escapePointer() {
 	recall := ""
 	if !(stored && !strings.HasSuffix(route, "slice")) && g.Chance(3, 4, "ptr-recall") {
 		g.Tag("pointer-creator-called-again->=33-times-with-other-arguments")
-		i := g.Local("ci")
-		lhs := "_ = "
-		if stored {
-			lhs = ""
-		} else if place == "named-result" {
-			lhs = "_, _ = "
+		// every pointer is kept and some are read after the burn: each call must have
+		// given its variable a cell of its own
+		i, keep := g.Local("ci"), g.Local("keep")
+		call := fmt.Sprintf("%s(%s%s)", creator, argOf(k, i), extraArgs)
+		var stmt string
+		switch {
+		case stored:
+			stmt = call
+			keep = sink
+		case place == "named-result":
+			q := g.Local("kp")
+			stmt = fmt.Sprintf("_, %s := %s\n\t%s = append(%s, %s)", q, call, keep, keep, q)
+		default:
+			stmt = fmt.Sprintf("%s = append(%s, %s)", keep, keep, call)
 		}
-		recall = fmt.Sprintf("for %s := 0; %s < %d; %s++ {\n\t%s%s(%s%s)\n}\n", i, i, g.Int(33, 50, "ptr-recall-n"), i, lhs, creator, argOf(k, i), extraArgs)
+		if !stored {
+			recall = fmt.Sprintf("var %s []%s\n", keep, ptyp)
+		}
+		recall += fmt.Sprintf("for %s := 0; %s < %d; %s++ {\n\t%s\n}\n", i, i, g.Int(33, 50, "ptr-recall-n"), i, stmt)
+		g.reads = append(g.reads, fmt.Sprintf("rec.E(%d, *%s[1], *%s[2], *%s[len(%s)/2], *%s[len(%s)-1])\n", g.Ev(), keep, keep, keep, keep, keep, keep))
 	}
 	var read string
 	switch {
@@ -1565,5 +1577,16 @@ func generate(t *rapid.T, px string, avoid map[string]bool) gobatch.Program {
 	}
 	entry := g.Top("main")
 	g.Decls = append(g.Decls, fmt.Sprintf("func %s() {\n%s}", entry, progen.Indent(body.String())))
-	return gobatch.Program{Decls: g.Decls, Entry: entry, Tags: g.TagList(), NT: nt}
+	// Half of the programs ask hook H1 (option bit 62, read by fast/verif_h1_on.go; ignored
+	// by a tree whose hook has no switch) to leave released frames as they are: poisoning
+	// also wipes the stale contents of a pooled frame, which hides every defect that
+	// consists in REUSING what a recycled frame still holds.
+	var opts uint64
+	if g.Chance(1, 2, "no-poison") {
+		g.Tag("released-frames-not-poisoned")
+		opts = 1 << 62
+	} else {
+		g.Tag("released-frames-poisoned")
+	}
+	return gobatch.Program{Decls: g.Decls, Entry: entry, Tags: g.TagList(), NT: nt, Options: opts}
 }
